@@ -19,6 +19,7 @@ package ipam_test
 //     its affinity, the block version it replaces holds no allocations.
 
 import (
+	"context"
 	"fmt"
 	"sort"
 	"strings"
@@ -30,6 +31,7 @@ import (
 	"pgregory.net/rapid"
 
 	"github.com/projectcalico/calico/libcalico-go/lib/backend/model"
+	"github.com/projectcalico/calico/libcalico-go/lib/ipam"
 	"github.com/projectcalico/calico/verifkit/ev"
 	"github.com/projectcalico/calico/verifkit/memds"
 )
@@ -51,7 +53,35 @@ func c22LiveAllocs(b *model.AllocationBlock) []int {
 	return out
 }
 
+// c22SigClaimDuringRelease: host H re-claims a block it owns while another actor is releasing
+// H's affinity to that (non-empty) block.  The releaser marks the affinity pendingDeletion and
+// then strips the block's Affinity with a CAS on the block; the claimer (getPendingAffinity)
+// overwrites pendingDeletion with pending, finds the block "already claimed by this host"
+// (claimAffineBlock) and confirms with a CAS on the affinity only - it never writes the block,
+// so the releaser's block CAS still succeeds.  Result, without any fault: a confirmed affinity
+// for H on a block whose Affinity is nil (durable if the releaser dies before its retry).
+const c22SigClaimDuringRelease = "c22-claim-confirms-while-release-strips-block-affinity"
+
+// releaseOfHostSeen: some operation that may release host h's affinities of non-empty blocks
+// has been started (running, finished or crashed).
+func (s *c22Scenario) releaseOfHostSeen(h string) bool {
+	for _, o := range s.r.ops {
+		switch o.Kind {
+		case c19ReleaseAffinity, c19ReleaseHostAffinities:
+			if o.TargetHost == h && !o.MustBeEmpty {
+				return true
+			}
+		case c19RemoveIPAMHost:
+			if o.TargetHost == h {
+				return true
+			}
+		}
+	}
+	return false
+}
+
 type c22Scenario struct {
+	knownHit bool
 	t       *rapid.T
 	r       *c19Runner
 	w       *c19World
@@ -84,6 +114,10 @@ func (s *c22Scenario) checkState() {
 			s.fail("step %d: block %s has %d confirmed affinities: %v", s.r.step, c, len(hs), hs)
 		}
 		if b, ok := snap.Blocks[c]; ok && b.Affinity != "host:"+hs[0] {
+			if b.Affinity == "" && ev.Known(c22SigClaimDuringRelease) && s.releaseOfHostSeen(hs[0]) {
+				s.knownHit = true
+				continue
+			}
 			s.fail("step %d: block %s is confirmed for host %s but the block records affinity %q", s.r.step, c, hs[0], b.Affinity)
 		}
 	}
@@ -353,6 +387,9 @@ func c22Run(t *rapid.T, rec *ev.Recorder, opsPerClient int) {
 		cls = append(cls, "op-"+k)
 	}
 	tr := s.r.sched.Trace()
+	if s.knownHit {
+		rec.Excluded(c22SigClaimDuringRelease)
+	}
 	rec.SizedCase(overlap, shape, len(tr), func() any {
 		var ops []string
 		for _, o := range s.r.ops {
@@ -373,4 +410,71 @@ func TestVerifC22Scheduled(t *testing.T) {
 	rapid.Check(t, func(t *rapid.T) {
 		c22Run(t, rec, ev.Scale(5, 7))
 	})
+}
+
+// TestVerifC22ConfirmClaimDuringRelease is the deterministic reproducer of the known finding
+// c22SigClaimDuringRelease.  It FAILS while the defect is present.  No faults.
+func TestVerifC22ConfirmClaimDuringRelease(t *testing.T) {
+	ev.Quiet()
+	w := c19NewWorld([]v3.IPPool{c19Pool("pool4", c19PoolV4, 30)}, nil)
+	w.addNode("n3", nil)
+	w.setConfig(model.IPAMConfig{AutoAllocateBlocks: true})
+	ctx := context.Background()
+	// n3 owns block 10.0.0.0/30 and has one address in it.
+	if _, _, err := w.ic.ClaimAffinity(ctx, cnetMustCIDR("10.0.0.0/30"), ipam.AffinityConfig{AffinityType: ipam.AffinityTypeHost, Host: "n3"}); err != nil {
+		t.Fatalf("HARNESS-GAP: %v", err)
+	}
+	if err := w.ic.AssignIP(ctx, ipam.AssignIPArgs{IP: *cnetIP("10.0.0.1"), Hostname: "n3"}); err != nil {
+		t.Fatalf("HARNESS-GAP: %v", err)
+	}
+	sched := memds.NewScheduler(w.store)
+	var errR, errC error
+	var claimed []string
+	// R: somebody releases n3's affinities (blocks need not be empty) ...
+	sched.Go("r", func(ctx context.Context) {
+		errR = w.ic.ReleaseHostAffinities(ctx, ipam.AffinityConfig{AffinityType: ipam.AffinityTypeHost, Host: "n3"}, false)
+	})
+	// ... and has marked the affinity pendingDeletion; its next call strips the block's affinity.
+	c19Drive(t, sched, func(calls []*memds.Call) int {
+		if calls[0].Method == "Update" && strings.Contains(calls[0].Path, "/assignment/") {
+			return -1
+		}
+		return 0
+	})
+	// C: n3 claims the block again, start to finish.
+	sched.Go("c", func(ctx context.Context) {
+		cl, _, err := w.ic.ClaimAffinity(ctx, cnetMustCIDR("10.0.0.0/30"), ipam.AffinityConfig{AffinityType: ipam.AffinityTypeHost, Host: "n3"})
+		errC = err
+		for _, c := range cl {
+			claimed = append(claimed, c.String())
+		}
+	})
+	c19Drive(t, sched, func(calls []*memds.Call) int {
+		for i, c := range calls {
+			if strings.HasPrefix(c.ID, "c|") {
+				return i
+			}
+		}
+		return -1
+	})
+	// R's block write (compare-and-swap on the block revision it read before C ran).
+	calls, err := sched.Quiesce()
+	if err != nil || len(calls) != 1 {
+		t.Fatalf("HARNESS-GAP: expected R parked at its block write: %v %v", calls, err)
+	}
+	sched.Release(calls[0], memds.FaultNone)
+	if _, err := sched.Quiesce(); err != nil {
+		t.Fatalf("HARNESS-GAP: %v", err)
+	}
+	snap := w.snapshot()
+	for _, a := range snap.Affs {
+		if b := snap.Blocks[a.CIDR]; a.State == string(model.StateConfirmed) && b != nil && b.Affinity != "host:"+a.Host {
+			t.Errorf("no faults: ClaimAffinity(10.0.0.0/30, n3) returned claimed=%v err=%v while ReleaseHostAffinities(n3) was between its two writes: affinity of %s for %s is confirmed but the block records affinity %q\n%s\ntrace: %v",
+				claimed, errC, a.CIDR, a.Host, b.Affinity, snap, sched.Trace())
+		}
+	}
+	if err := sched.Shutdown(); err != nil {
+		t.Fatalf("HARNESS-GAP: %v", err)
+	}
+	_ = errR
 }
